@@ -377,6 +377,15 @@ def r5(ctx):
                 if t["args"] and any(a.startswith("field:turmoil::dns::Dns::") for a in Slicer(ctx.w).atoms(fb, t["args"][0])) and \
                         any(any(a.startswith("arg:2:") for a in Slicer(ctx.w).atoms(fb, x)) for x in t["args"][1:]):
                     told = True
+    # ... and Dns remembers every address it is told about: Dns::reserve records unconditionally (a reservation skipped because the
+    # allocator "has passed" the address is off by one exactly when the literal address is the allocator's next draw)
+    rs = ctx.w.bodies.get("turmoil::dns::Dns::reserve")
+    if rs:
+        rec = [bb for bb, t in rs.calls(re.compile(r"::(insert|insert_full|push|push_back)$")) if t["args"] and any(a.startswith("field:turmoil::dns::Dns::") for a in Slicer(ctx.w).atoms(rs, t["args"][0]))]
+        skip = [x for x in rs.exits() if not (rec and rs.dominated_by_any(x, blocks=rec))]
+        ctx.inst(R, "reserve:records-on-every-path", bool(rec) and not skip, rs.span, "every registered address is recorded" if rec and not skip else
+                 "Dns::reserve records the address only under a condition: a host registered by a literal address the condition lets through is unknown to the allocator - the next new "
+                 "name resolves to that host's address and registering the name panics `already registered host`")
     tested = False
     for b in ctx.w.bodies.values():
         if b.crate != "turmoil" or "dns" not in b.id:
